@@ -5,6 +5,9 @@
 // byte-for-byte with only the marker header (x-ms-azure-host-authorization) added. Message-framing headers (content-length,
 // transfer-encoding) and Date may be regenerated on either leg, so they are not compared; header names are compared
 // case-insensitively (HTTP field names are case-insensitive), the order of values under one name must be kept.
+// What the host says about its connection (Connection: close / keep-alive, Keep-Alive: ...) is a host header like any other
+// (section F): it reaches the client, and the client's next request - on the same keep-alive connection unless it was told
+// `Connection: close` - is answered by the host, not by the proxy.
 // Many requests on one keep-alive connection (sequential, pipelined, several connections in parallel): each response goes to
 // the request that caused it.
 #![allow(dead_code, unused_imports, clippy::all)]
@@ -13,9 +16,29 @@ include!("/verif/witness/handler_harness.inc.rs");
 const SKIP: [&str; 7] = ["content-length", "transfer-encoding", "date", "x-ms-azure-host-claims", "x-ms-azure-host-date", "x-ms-azure-host-authorization", "connection"];
 
 fn comparable(headers: &[(String, String)]) -> Vec<String> {
-    let mut v: Vec<(String, String)> = headers.iter().map(|(n, val)| (n.to_ascii_lowercase(), val.clone())).filter(|(n, _)| !SKIP.contains(&n.as_str())).collect();
+    comparable_but(headers, &SKIP)
+}
+
+fn comparable_but(headers: &[(String, String)], skip: &[&str]) -> Vec<String> {
+    let mut v: Vec<(String, String)> = headers.iter().map(|(n, val)| (n.to_ascii_lowercase(), val.clone())).filter(|(n, _)| !skip.contains(&n.as_str())).collect();
     v.sort_by(|a, b| a.0.cmp(&b.0)); // stable: the order of the values of one name is kept
     v.into_iter().map(|(n, val)| format!("{}: {}", n, val)).collect()
+}
+
+// host response headers in section F: only message framing, Date and the proxy's marker are left out - what the host says about
+// its connection (Connection, Keep-Alive) is a host header like any other and has to reach the client
+const SKIP_F: [&str; 4] = ["content-length", "transfer-encoding", "date", "x-ms-azure-host-authorization"];
+
+fn announces_close(r: &Result<ClientResp, String>) -> bool {
+    match r {
+        Ok(r) => vx_hget(&r.headers, "connection").iter().any(|v| v.split(',').any(|t| t.trim().eq_ignore_ascii_case("close"))),
+        Err(_) => false,
+    }
+}
+
+enum Cl { Constructed(Conn), Real(RawClient) }
+impl Cl {
+    fn client(&mut self) -> &mut RawClient { match self { Cl::Constructed(c) => &mut c.client, Cl::Real(c) => c } }
 }
 
 fn pattern(len: usize, seed: usize) -> Vec<u8> {
@@ -171,6 +194,95 @@ fn console_vxw_c14() {
         }
     }
     drop(exchange);
+
+    // ---- F: what the host says about its connection (Connection: close / keep-alive, Keep-Alive), unusual and custom header names,
+    //      repeated names - then a second request of the same client: on the same keep-alive connection, unless the response the
+    //      client received announced `Connection: close` (an HTTP client then opens a new connection). Every host header reaches the
+    //      client, and both requests get the HOST's answers.
+    {
+        let rep: Vec<(String, String)> = sv(&[("Set-Cookie", "a=1; Path=/"), ("Set-Cookie", "b=2; HttpOnly"), ("set-cookie", "c=3"), ("Via", "1.0 fabric"), ("Via", "1.1 wireserver"), ("X-Rep", "1"), ("x-rep", "2"), ("X-REP", "3, 4"), ("Warning", "199 - \"one\""), ("Warning", "299 - \"two\"")]);
+        let odd: Vec<(String, String)> = sv(&[("X-Under_Score", "u"), ("x.dot.name", "d"), ("X-!#$%&'*+-.^_`|~", "every token character"), ("x-ms-unusual-custom-header-with-a-rather-long-name-0123456789", "v"), ("Age", "0"), ("Vary", "Accept-Encoding, x-ms-version"),
+            ("Link", "<http://168.63.129.16/next?x=1>; rel=\"next\""), ("Alt-Svc", "clear"), ("Proxy-Authenticate", "Basic realm=\"host\""), ("Strict-Transport-Security", "max-age=0"), ("X-Content-Type-Options", "nosniff"), ("P3P", "CP=\"x\""), ("x-empty", "")]);
+        let mut sets: Vec<(&str, Vec<(String, String)>)> = vec![
+            ("Connection: close", sv(&[("Content-Type", "text/xml"), ("Connection", "close")])),
+            ("connection: Close (letter case)", sv(&[("connection", "Close"), ("x-ms-request-id", "c-2")])),
+            ("Connection: keep-alive + Keep-Alive: timeout=5", sv(&[("Connection", "keep-alive"), ("Keep-Alive", "timeout=5"), ("Content-Type", "text/xml")])),
+            ("Keep-Alive: timeout=5, max=100 alone", sv(&[("Keep-Alive", "timeout=5, max=100")])),
+            ("unusual and custom header names", odd.clone()),
+            ("repeated header names", rep.clone()),
+        ];
+        let mut all = rep.clone();
+        all.extend(odd.clone());
+        all.push(("Connection".to_string(), "keep-alive".to_string()));
+        all.push(("Keep-Alive".to_string(), "timeout=5".to_string()));
+        sets.push(("repeated + unusual + Connection: keep-alive", all));
+        let mut all = odd.clone();
+        all.extend(rep.clone());
+        all.push(("Connection".to_string(), "close".to_string()));
+        sets.push(("unusual + repeated + Connection: close", all));
+        for (kname, key, real) in [("key set (signed)", true, false), ("no key", false, false), ("key set (signed), real listener path", true, true)] {
+            if real && audit.is_none() { continue; }
+            h.set_key(if key { Some(vx_key()) } else { None });
+            let open = |h: &Harness| -> Cl { if real { Cl::Real(h.connect_real(&h.ps, Some((audit.as_ref().unwrap(), true)))) } else { Cl::Constructed(h.connect(&attr)) } };
+            for (hname, rh) in sets.iter() {
+                for (bi, body1) in [RespBody::Len(b"<first answer of the host/>".to_vec()), RespBody::Chunked(vec![b"<first ".to_vec(), b"answer of the host/>".to_vec()], 0)].into_iter().enumerate() {
+                    for second_with_body in [false, true] {
+                        n += 1;
+                        let resp1 = MockResp { status: 200, headers: rh.clone(), body: body1.clone() };
+                        let resp2 = MockResp { status: if bi == 0 { 200 } else { 404 }, headers: sv(&[("Content-Type", "text/plain"), ("x-second", "answer"), ("Keep-Alive", "timeout=7")]), body: RespBody::Len(b"second answer of the host".to_vec()) };
+                        h.host.push_response(resp1.clone());
+                        h.host.push_response(resp2.clone());
+                        let s1 = Sent { method: "GET".to_string(), target: "/machine?comp=goalstate".to_string(), headers: base_headers.clone(), body: ReqBody::None };
+                        let s2 = if second_with_body { Sent { method: "POST".to_string(), target: "/machine?comp=second".to_string(), headers: base_headers.clone(), body: ReqBody::Len(pattern(300, 3)) } }
+                            else { Sent { method: "GET".to_string(), target: "/machine?comp=second".to_string(), headers: base_headers.clone(), body: ReqBody::None } };
+                        let mut c1 = open(&h);
+                        c1.client().send(vx_request_bytes(&s1.method, &s1.target, &s1.headers, &s1.body));
+                        let r1 = c1.client().recv(false);
+                        // an HTTP client that was told `Connection: close` opens a new connection for its next request
+                        let reconnect = announces_close(&r1);
+                        let mut c2 = if reconnect { Some(open(&h)) } else { None };
+                        let r2 = {
+                            let c = match c2.as_mut() { Some(c) => c.client(), None => c1.client() };
+                            c.send(vx_request_bytes(&s2.method, &s2.target, &s2.headers, &s2.body));
+                            c.recv(false)
+                        };
+                        // close the client side of both connections, wait for the proxy to let go of them, then collect what the host saw
+                        let mut tasks = Vec::new();
+                        for c in [Some(c1), c2].into_iter().flatten() {
+                            match c {
+                                Cl::Constructed(Conn { client, task }) => { client.close(); tasks.push(task); }
+                                Cl::Real(client) => client.close(),
+                            }
+                        }
+                        for t in tasks { let _ = h.rt.block_on(async { tokio::time::timeout(Duration::from_secs(10), t).await }); }
+                        let (_b, reqs) = h.settle();
+                        let mut problems = Vec::new();
+                        if reqs.len() != 2 { problems.push(format!("{} requests at the host, 2 sent", reqs.len())); }
+                        let strict = |desc: &str, want: &MockResp, got: &Result<ClientResp, String>, problems: &mut Vec<String>| {
+                            if let Ok(r) = got {
+                                let (a, b) = (comparable_but(&r.headers, &SKIP_F), comparable_but(&want.headers, &SKIP_F));
+                                if a != b { problems.push(format!("{}: host headers at the client (Connection / Keep-Alive included) {:?}, host sent {:?}", desc, a, b)); }
+                            }
+                        };
+                        check_request("first request", &s1, reqs.first(), &mut problems);
+                        check_response("first response", &resp1, false, &r1, &mut problems);
+                        strict("first response", &resp1, &r1, &mut problems);
+                        check_request("second request", &s2, reqs.get(1), &mut problems);
+                        check_response("second response", &resp2, false, &r2, &mut problems);
+                        strict("second response", &resp2, &r2, &mut problems);
+                        if !problems.is_empty() {
+                            problems.truncate(5);
+                            vx_fail(serde_json::json!({"property": "C14", "input": {"what": format!("F host response headers: {}, {}", hname, kname), "path": if real { "real handle_new_tcp_connection, attributed through the kernel audit map" } else { "constructed connection context (WireServer, elevated caller)" },
+                                "first_request": format!("{} {}", s1.method, s1.target), "host_response_headers": rh.iter().map(|(a, b)| format!("{}: {}", a, b)).collect::<Vec<_>>(), "host_response_body": if bi == 0 { "content-length" } else { "chunked" },
+                                "second_request": format!("{} {} ({} body bytes), sent on {}", s2.method, s2.target, s2.body.bytes().len(), if reconnect { "a new connection (the first response announced Connection: close)" } else { "the same keep-alive connection (the first response did not announce Connection: close)" }),
+                                "second_host_response": format!("{} {:?}", resp2.status, resp2.headers)},
+                                "got": {"problems": problems}, "want": "every host response header other than message framing / Date at the client, plus the marker; both requests at the host and answered by the host"}));
+                        }
+                    }
+                }
+            }
+        }
+    }
 
     // ---- E: many requests on one keep-alive connection; the host answers each request with a body derived from it
     h.set_key(Some(vx_key()));
